@@ -39,13 +39,13 @@ func main() {
 	case "list":
 		enc.Encode(p.Shards(os.Args[3]))
 	case "meta":
-		enc.Encode(map[string]any{"id": p.ID, "variant": p.Variant, "rule": p.Rule, "assumptions": p.Assumptions})
+		enc.Encode(map[string]any{"id": p.ID, "variant": p.Variant, "rule": p.Rule, "assumptions": p.Assumptions, "no_resume": p.NoResume})
 	case "run":
 		tier, shard := os.Args[3], os.Args[4]
 		var progress string
 		var deadline time.Time
 		poison := map[int64]string{}
-		var seed int64
+		var seed, resume int64
 		a := os.Args[5:]
 		for i := 0; i+1 < len(a); i += 2 {
 			switch a[i] {
@@ -56,6 +56,8 @@ func main() {
 				if n > 0 {
 					deadline = time.Unix(n, 0)
 				}
+			case "-resume":
+				resume, _ = strconv.ParseInt(a[i+1], 10, 64)
 			case "-seed":
 				seed, _ = strconv.ParseInt(a[i+1], 10, 64)
 			case "-poison":
@@ -69,6 +71,7 @@ func main() {
 		}
 		c := core.NewCtx(id, tier, shard, deadline, progress, poison)
 		c.Seed = seed
+		c.Resume = resume
 		c.StartWatchdog(40 * time.Second)
 		p.Run(c)
 		enc.Encode(c.Finish())
